@@ -31,8 +31,9 @@ func (ex *Exec) addObl(kind, label, goal, pc, src, where string) *Obligation {
 		o.Props = ex.c.Props
 	}
 	g.obls = append(g.obls, o)
-	// later obligations may assume this one
-	if kind != "cover" && kind != "canary" {
+	// later obligations may assume this one (not if it is a recorded known finding: a clause known to fail
+	// must not support the proof of others)
+	if kind != "cover" && kind != "canary" && !g.noAssume[o.Name] {
 		g.assume(pc, goal)
 	}
 	return o
@@ -449,6 +450,38 @@ func (ex *Exec) lookupLocalX(env *Env, name string, skipParams bool) (Val, bool)
 				return Val{ex.load(env.st, ad), GType{T: elem}}, true
 			}
 			if ref, ok := ex.vals[a]; ok {
+				if _, isSt := elem.Underlying().(*types.Struct); isSt {
+					return Val{S: ref, G: GType{T: elem, Loc: true}}, true
+				}
+				return Val{S: fmt.Sprintf("(select %s %s)", ex.compGet(env.st, ex.g.cellComp(elem)), ref), G: GType{T: elem}}, true
+			}
+		}
+	}
+	// a variable that lives in memory (captured by a closure, address taken): the Alloc named `name`
+	// that dominates this point (innermost), read in the current state
+	{
+		var bestA *ssa.Alloc
+		for _, b := range fn.Blocks {
+			for _, in := range b.Instrs {
+				a, ok := in.(*ssa.Alloc)
+				if !ok || a.Comment != name {
+					continue
+				}
+				if at != nil && !(b == at || b.Dominates(at)) {
+					continue
+				}
+				if bestA == nil || bestA.Block().Dominates(b) {
+					bestA = a
+				}
+			}
+		}
+		if bestA != nil {
+			elem := bestA.Type().(*types.Pointer).Elem()
+			if ad, ok := ex.addrs[bestA]; ok {
+				if _, has := env.st.locals[ad.local]; has || ad.kind != akLocal {
+					return Val{ex.load(env.st, ad), GType{T: elem}}, true
+				}
+			} else if ref, ok := ex.vals[bestA]; ok {
 				if _, isSt := elem.Underlying().(*types.Struct); isSt {
 					return Val{S: ref, G: GType{T: elem, Loc: true}}, true
 				}
